@@ -10,7 +10,7 @@ pub fn prop() -> Prop {
     Prop {
         id: "C20",
         level: "exploration",
-        rule: "streams of a hardware-FIFO model (24-bit 10 MHz counter, marker k at (k+1)*2^23 with top bit = k odd, scaler blocks interleaved) for 1..=4 boards, 0..=17 half wraps, 30..2000 edges incl. within +-4 ticks of a marker and ~10% displaced across a marker by < 2^22 ticks; cut into CBFn banks of 1..300 bytes, events (with foreign banks / events interleaved) and 1..=3 files given in shuffled order; single faults: dropped marker, duplicated marker, truncated tail (every length mod 4, inside a scaler block), corrupted word, missing marker 0, marker 0 with top bit set. The real alpha-g-chronobox-timestamps binary is run as a child process; its exit status and every CSV row (board, channel, edge, time or empty) are compared with the model's ground truth (true time of each edge). Non-trivial = distinct runs (hash of the streams) with >= 1 displaced edge or an injected fault. Also: the file boundary swept over every byte around and inside a scaler block; 0xFE-top near-miss scaler tags among the corrupted words. Round 4: the corrupted word also as the very first word of a board's stream, right after its leading scaler blocks, right before / after a marker and as the very last word. Round 6: a board sending 66 000..146 000 FIFO entries; up to 5 files with idle files (no Chronobox event) in the middle of the run. Round 8: a quiet board whose only entry is the counter-0 marker; more than 65 536 entries in front of the counter-0 marker.",
+        rule: "streams of a hardware-FIFO model (24-bit 10 MHz counter, marker k at (k+1)*2^23 with top bit = k odd, scaler blocks interleaved) for 1..=4 boards, 0..=17 half wraps, 30..2000 edges incl. within +-4 ticks of a marker and ~10% displaced across a marker by < 2^22 ticks; cut into CBFn banks of 1..300 bytes, events (with foreign banks / events interleaved) and 1..=3 files given in shuffled order; single faults: dropped marker, duplicated marker, truncated tail (every length mod 4, inside a scaler block), corrupted word, missing marker 0, marker 0 with top bit set. The real alpha-g-chronobox-timestamps binary is run as a child process; its exit status and every CSV row (board, channel, edge, time or empty) are compared with the model's ground truth (true time of each edge). Non-trivial = distinct runs (hash of the streams) with >= 1 displaced edge or an injected fault. Also: the file boundary swept over every byte around and inside a scaler block; 0xFE-top near-miss scaler tags among the corrupted words. Round 4: the corrupted word also as the very first word of a board's stream, right after its leading scaler blocks, right before / after a marker and as the very last word. Round 6: a board sending 66 000..146 000 FIFO entries; up to 5 files with idle files (no Chronobox event) in the middle of the run. Round 8: a quiet board whose only entry is the counter-0 marker; more than 65 536 entries in front of the counter-0 marker. Round 9: a marker whose counter reads two more / less (parity, hence top bit, still consistent); every MIDAS event with the same serial number and header time.",
         assumptions: &["the hardware model (harness/src/cb.rs::stream) is faithful to the statement", "MIDAS writer produces files midasio accepts (checked: runs without fault succeed)"],
         profiles: release_only,
         shards: shards16,
